@@ -130,6 +130,36 @@ def opPipeline (toks : List String) : String :=
     "ok " ++ " ".intercalate (ops.map opStr) ++ " target:" ++ objStr tgt
   | _ => "bad-args"
 
+open Pyshacl.History in
+def parseStage (s : String) : Option History.Stage :=
+  if s = "meta" then some .metaShacl else if s = "data" then some .loadData else if s = "ont" then some .loadOnt
+  else if s = "shapes" then some .loadShapes else if s = "build" then some .buildShapes
+  else if s = "rules" then some .rules else if s = "validate" then some .validate
+  else if s.startsWith "apply" then (s.drop 5).toString.toNat?.map History.Stage.applyFunctions
+  else none
+
+open Pyshacl.History in
+/-- `history (CALL shapesGiven ontGiven advanced nf f1..fnf fail)*` → global state after every call -/
+def opHistory (toks : List String) : String :=
+  let rec go (fuel : Nat) (toks : List String) (s : History.GState) (acc : List String) : List String :=
+    match fuel, toks with
+    | 0, _ => acc
+    | _, [] => acc
+    | fuel+1, "CALL" :: sg :: og :: adv :: nf :: rest =>
+      let n := nf.toNat?.getD 0
+      let fns := rest.take n
+      match rest.drop n with
+      | fail :: rest' =>
+        let c : History.Call := ⟨sg = "1", og = "1", adv = "1", fns, [], [], parseStage fail⟩
+        let (s', obs) := History.step s c
+        let out := "n" ++ (if s'.normalize then "1" else "0") ++ ":b" ++ (if s'.boolPatched then "1" else "0") ++
+          ":c" ++ toString s'.customFns.length ++ ":o" ++ (if obs.normalizeAtLoad then "1" else "0") ++
+          (if obs.boolPatchedAtLoad then "1" else "0") ++ toString obs.foreignFns.length
+        go fuel rest' s' (acc ++ [out])
+      | [] => acc
+    | _, _ => acc ++ ["bad"]
+  "ok " ++ " ".intercalate (go 64 toks History.init [])
+
 def step (line : String) : String :=
   match (line.trimAscii.toString.splitOn " ").filter (· ≠ "") with
   | id :: op :: rest =>
@@ -137,6 +167,7 @@ def step (line : String) : String :=
       | "path" => opPath rest
       | "validate" => opValidate rest
       | "pipeline" => opPipeline rest
+      | "history" => opHistory rest
       | _ => "bad-op"
     id ++ " " ++ out
   | _ => "? bad-line"
